@@ -6,7 +6,7 @@ PROPS = {
     "C12": dict(
         targets=["c12_solve"],
         level="exploration",
-        rule="lock-step SPMD rapidcheck under mpirun -np k (k in 1,2,3,4,5,8; 1..8 thorough). solve: SPD M-matrices on grids / bounded-degree graphs (n<=400, contrast<=10), "
+        rule="lock-step SPMD rapidcheck under mpirun -np k (k in 1,2,3,4,5,8; 1..8 thorough). repart_decision: merge::is_needed() on generated partitions with thresholds at the per-rank row counts agrees on all ranks and follows the documented rule, the partitioner returns a global permutation (a disagreement dead-locks the setup, which a time-bounded run cannot report). one_level: block_preconditioner and subdomain_deflation with constant / per-dof / generated deflation vectors. solve: SPD M-matrices on grids / bounded-degree graphs (n<=400, contrast<=10), "
              "contiguous row partitions incl. empty ranks, mpi::make_solver over the runtime interface: {smoothed_aggregation, aggregation} x 9 relaxations x 8 solvers, "
              "single-level relaxation preconditioner, repartitioning (merge) on/off, direct_coarse on/off; (iters, resid) gathered from every rank must be bitwise identical, the assembled "
              "solution's true residual must match the reported one (kappa-aware allowance), iterations <= maxiter (+L-1), Krylov combinations must reach 1e-8 within 100 iterations. "
